@@ -170,7 +170,7 @@ PROPS["C05"] = {
 
 PROPS["C17"] = {
     "level": "exploration",
-    "technique": "stateful property-based testing (rapidcheck) + bounded exhaustive enumeration: pending-reassembly table (hook) vs reference reassembler after every frame",
+    "technique": "stateful property-based testing (rapidcheck) + bounded exhaustive enumeration: pending-reassembly table (hook) vs reference reassembler after every frame; plus coverage-guided structure-aware fuzzing (libFuzzer driving the same case struct and oracle)",
     "rule": "cases = frame histories over up to 4 endpoints from the alphabet {unsegmented, first, matching/mismatching/orphan "
             "continuation, invalid message, TECMP, short buffer, header-only}: exhaustively all sequences up to length 3 (thorough 4) "
             "over 22 symbols on two endpoints, random histories up to 60 (thorough 200) frames (one in 12 with segments of 20000..65535 bytes, accumulating beyond 65535), long procedural runs (30k / 250k "
@@ -188,6 +188,7 @@ PROPS["C17"] = {
         pbt("bounded_exhaustive", "pbt_C17", mode="enum", quick={}, thorough={"timeout": 7200}),
         pbt("random_histories", "pbt_C17", quick={"cases": 4500, "size": 100, "shards": 8},
             thorough={"cases": 10000, "size": 200, "shards": 16}),
+        cgf("coverage_guided", "pbt_C17", quick={"runs": 8000, "workers": 8}, thorough={"runs": 120000, "workers": 16}),
     ],
 }
 
